@@ -345,7 +345,7 @@ func scenCodec(rep *Report, tier string, seed int64) {
 		raw := string(content)
 		kind := "canonical"
 		// byte-level mutations
-		switch r.Intn(14) {
+		switch r.Intn(15) {
 		case 0:
 			raw = strings.Replace(raw, `"version":1`, `"version":1,"version":1`, 1)
 			kind = "dup-version"
@@ -388,6 +388,17 @@ func scenCodec(rep *Report, tier string, seed int64) {
 		case 12:
 			raw = strings.Replace(raw, `"type":"p`, `"type":"x`, 1)
 			kind = "unknown-ticker"
+		case 13:
+			// a known ticker decorated with JSON-escaped backslashes or quotes is not that ticker
+			field := []string{`"conversion":"`, `"type":"`}[r.Intn(2)]
+			if i := strings.Index(raw, field); i >= 0 {
+				j := i + len(field)
+				k := j + strings.Index(raw[j:], `"`)
+				tick := raw[j:k]
+				deco := []string{`\\` + tick, tick + `\\`, `\"` + tick + `\"`, `\"` + tick, `\\` + tick + `\\`}[r.Intn(5)]
+				raw = raw[:j] + deco + raw[k:]
+				kind = "decorated-ticker"
+			}
 		}
 		entry := SignBatch([]byte(raw), EntryTime(20).Unix(), u.Signer())
 		entry.Timestamp = EntryTime(20)
